@@ -479,7 +479,8 @@ let () =
                                                (key "known", Json.JArr (Stdlib.List.map (fun c -> Json.JStr (key (match c with
                                                    | Gen.GReserved -> "ReservedIdent" | Gen.GDupType -> "DuplicateTypeName" | Gen.GDupFn -> "DuplicateFnName"
                                                    | Gen.GFixedName -> "TypedefShadowsGeneratedName" | Gen.GKeywordFn -> "MethodNameIsKeyword"
-                                                   | Gen.GBindingVariant -> "ParameterNamedLikeEnumMember"))) (Gen.known_classes i))) ]))
+                                                   | Gen.GBindingVariant -> "ParameterNamedLikeEnumMember"
+                                                   | Gen.GErrorName -> "ErrorNameClashes"))) (Gen.known_classes i))) ]))
          | Idl.OParseError | Idl.ODuplicates _ -> "err"
          | Idl.OOutOfFuel -> "FUEL")
       | _ -> failwith "gen_model")
